@@ -18,8 +18,15 @@ structure Out where
   err : Option PyErr := none
   deriving Repr, DecidableEq
 
+/-- what a listing file holds: text (decoded, as code points), or bytes that are not UTF-8 — `readlines()` then raises
+    `UnicodeDecodeError`, after the target was created / truncated -/
+inductive Listing where
+  | text (t : Str)
+  | undecodable
+  deriving Repr, DecidableEq
+
 /-- one source of `moto_lst2bas` -/
-def lst2basOne (w : Str → Option Str) (source : Str) : Out :=
+def lst2basOne (w : Str → Option Listing) (source : Str) : Out :=
   match rfindFrom 46 source 0 with
   | none => { err := some (.valueError "file.without.extension") }
   | some dp =>
@@ -28,7 +35,8 @@ def lst2basOne (w : Str → Option Str) (source : Str) : Out :=
       -- processIntoTokenizedBasicFile: the listing is opened, then the target (created / truncated), then converted
       match w source with
       | none => { err := some (.osError "FileNotFoundError") }
-      | some text =>
+      | some .undecodable => { writes := [(source.take (source.length - 3) ++ str "bas", [])], err := some .unicodeError }
+      | some (.text text) =>
         let target := source.take (source.length - 3) ++ str "bas"
         match Basic.convert text with
         | none => { writes := [(target, [])], err := some (.valueError "No line number in this line") }
@@ -38,7 +46,8 @@ def lst2basOne (w : Str → Option Str) (source : Str) : Out :=
       let src := source.take (source.length - 2)
       match w src with
       | none => { err := some (.osError "FileNotFoundError") }
-      | some text => { writes := [(src.take (src.length - 3) ++ str "bas", toAsciiBasic text)] }
+      | some .undecodable => { writes := [(src.take (src.length - 3) ++ str "bas", [])], err := some .unicodeError }
+      | some (.text text) => { writes := [(src.take (src.length - 3) ++ str "bas", toAsciiBasic text)] }
     else { err := some (.valueError "Extension 'lst' (case insensitive) not found") }
 
 /-- the `for source in args.sources` loop of either tool: the first failure ends the run, what was written stays -/
@@ -51,7 +60,7 @@ def runSeq (one : Str → Out) : List Str → Out
     | none => let r := runSeq one rest; { writes := o.writes ++ r.writes, err := r.err }
 
 /-- `ListingToBasicCli.run` -/
-def lst2basRun (w : Str → Option Str) (sources : List Str) : Out := runSeq (lst2basOne w) sources
+def lst2basRun (w : Str → Option Listing) (sources : List Str) : Out := runSeq (lst2basOne w) sources
 
 /-- one source of `moto_bas2lst` -/
 def bas2lstOne (w : Str → Option Bytes) (dos : Bool) (source : Str) : Out :=
